@@ -346,7 +346,9 @@ pub fn env_u64(name: &str, default: u64) -> u64 {
 impl Runner {
     pub fn new(prop: &'static str, tier: Tier, seed: u64) -> Runner {
         let threads = env_u64("VERIF_THREADS", 0) as usize;
-        let threads = if threads == 0 {
+        let threads = if cfg!(miri) {
+            1
+        } else if threads == 0 {
             std::thread::available_parallelism().map(|n| n.get()).unwrap_or(8).min(32)
         } else {
             threads
@@ -359,7 +361,7 @@ impl Runner {
             stats: Stats {
                 evals: AtomicU64::new(0),
                 nontrivial: AtomicU64::new(0),
-                distinct: Distinct::new(if tier == Tier::Quick { 28 } else { 32 }),
+                distinct: Distinct::new(if cfg!(miri) { 12 } else if tier == Tier::Quick { 28 } else { 32 }),
                 hist: Mutex::new(BTreeMap::new()),
                 samples: Mutex::new(vec![]),
                 maxima: Mutex::new(BTreeMap::new()),
@@ -500,6 +502,23 @@ impl Runner {
         if self.stopped() {
             return;
         }
+        if cfg!(miri) {
+            // under the interpreter: a strided sample of the enumeration, single-threaded
+            let n = env_u64("VERIF_MIRI_PER_PHASE", 150).min(total);
+            let mut ctx = self.new_ctx(0);
+            let mut local = self.new_local();
+            for k in 0..n {
+                let idx = (k as u128 * total as u128 / n as u128) as u64;
+                if let Err(v) = f(&mut ctx, &mut local, idx) {
+                    if self.report(v) {
+                        break;
+                    }
+                }
+            }
+            self.merge(local);
+            self.phase_done(name, n, false, t0);
+            return;
+        }
         let next = AtomicU64::new(0);
         let chunk = (total / (self.threads as u64 * 64)).clamp(1, 4096);
         std::thread::scope(|s| {
@@ -545,7 +564,8 @@ impl Runner {
         }
         self.any_random.store(true, Ordering::Relaxed);
         self.exhaustive.store(false, Ordering::Relaxed);
-        let batches: u64 = 256.min(cases.max(1));
+        let cases = if cfg!(miri) { cases.min(env_u64("VERIF_MIRI_PER_PHASE", 150)) } else { cases };
+        let batches: u64 = if cfg!(miri) { 1 } else { 256.min(cases.max(1)) };
         let per_batch = (cases + batches - 1) / batches;
         let next = AtomicU64::new(0);
         let name_h = fnv(name.as_bytes(), 0x1234567);
@@ -660,7 +680,7 @@ impl Runner {
         if matches!(&*best.rec.sub, "compile" | "lattice" | "build" | "race" | "variant-crash" | "crash" | "cachegrind") {
             return best;
         }
-        let mut budget = if &*best.rec.sub == "variant-pair" { 250usize } else { 3000usize };
+        let mut budget = if &*best.rec.sub == "variant-pair" { 250usize } else if &*best.rec.sub == "memcheck" { 40usize } else { 3000usize };
         let same = |ctx: &mut Ctx, local: &mut Local, rec: &CaseRec, sig: &str| -> Option<Violation> {
             match check(ctx, local, rec) {
                 Err(v2) if v2.sig == sig => Some(v2),
